@@ -679,9 +679,11 @@ class KmipEngine(object):
         elif attr_name == 'Object Type':
             return managed_object.object_type
         elif attr_name == 'Cryptographic Algorithm':
-            return managed_object.cryptographic_algorithm
+            # Not every object the attribute applies to stores it
+            # (e.g., certificates).
+            return getattr(managed_object, 'cryptographic_algorithm', None)
         elif attr_name == 'Cryptographic Length':
-            return managed_object.cryptographic_length
+            return getattr(managed_object, 'cryptographic_length', None)
         elif attr_name == 'Cryptographic Parameters':
             return None
         elif attr_name == 'Cryptographic Domain Parameters':
@@ -933,6 +935,16 @@ class KmipEngine(object):
                 field = "sensitive"
 
             if field:
+                if not hasattr(managed_object, field):
+                    raise exceptions.InvalidField(
+                        "Cannot set {0} attribute on {1} object.".format(
+                            attribute_name,
+                            ''.join(
+                                [x.capitalize() for x in
+                                 managed_object._object_type.name.split('_')]
+                            )
+                        )
+                    )
                 existing_value = getattr(managed_object, field)
                 if existing_value:
                     if existing_value != value:
